@@ -670,3 +670,54 @@ def value_referrers(ctx, func):
 def guards_under_lock(node, lock):
     """The guards of node whose test expression is evaluated while ``lock`` is held."""
     return [(e, pol) for e, pol in guards(node) if lock in locks_held(e)]
+
+
+# ---------------------------------------------------------------------------
+# discovering locals by role (so that rules do not depend on local variable names)
+# ---------------------------------------------------------------------------
+
+def names_defined_by(func, pred):
+    """Local names having a definition whose value satisfies pred(value_ast)."""
+    out = []
+    for n in own_nodes(func.node):
+        if isinstance(n, ast.Assign) and len(n.targets) == 1 and isinstance(n.targets[0], ast.Name) and pred(n.value):
+            if n.targets[0].id not in out:
+                out.append(n.targets[0].id)
+        elif isinstance(n, ast.With):
+            for it in n.items:
+                if isinstance(it.optional_vars, ast.Name) and pred(it.context_expr) and it.optional_vars.id not in out:
+                    out.append(it.optional_vars.id)
+    return out
+
+
+def returned_names(func):
+    return [n.value.id for n in own_nodes(func.node) if isinstance(n, ast.Return) and isinstance(n.value, ast.Name)]
+
+
+def single_def(func, name):
+    ds = [v for st, v in local_defs(func, name) if isinstance(v, ast.AST) and isinstance(st, (ast.Assign, ast.AnnAssign))]
+    return ds[0] if len(ds) == 1 else None
+
+
+def resolve_local(func, expr, depth=0):
+    """Replace a Name that is a single-definition local by its definition (recursively)."""
+    if depth > 4:
+        return expr
+    if isinstance(expr, ast.Name) and expr.id not in func.params + func.kwonly:
+        d = single_def(func, expr.id)
+        if d is not None:
+            return resolve_local(func, d, depth + 1)
+    return expr
+
+
+def is_call_args_attr(func, expr, attr='extra_args'):
+    """expr is <call_args>.<attr> where <call_args> is (a local alias of) ...meta.call_args."""
+    if not (isinstance(expr, ast.Attribute) and expr.attr == attr):
+        return False
+    base = resolve_local(func, expr.value)
+    return norm(base).endswith('call_args')
+
+
+def ntext(func, expr):
+    """norm() of expr with a top-level single-definition local replaced by its definition."""
+    return norm(resolve_local(func, expr)) if expr is not None else None
